@@ -461,7 +461,7 @@ func (e *Env) evalUnary(y *ast.UnaryExpr, st *State) Value {
 			// &x.f : address of a field — a sub-object reference
 			if ref, owner, fld, ok := e.fieldAddr(z, st); ok {
 				if _, isStruct := fld.Type().Underlying().(*types.Struct); isStruct {
-					return App("emb$"+structKey(fld.Type()), SInt, ref)
+					return c.embRef(owner, fld, ref)
 				}
 				return App("addr$"+structKey(owner)+"."+fld.Name(), SInt, ref)
 			}
@@ -585,6 +585,7 @@ func (e *Env) evalBinary(y *ast.BinaryExpr, st *State) Value {
 		c.safety(st, "div0", y.Pos(), Neq(b, coerce(IntC(0), b.Sort)), "division by zero")
 	}
 	res := c.arith(y.Op, a, b, t, false)
+	c.drainSideFacts(st)
 	if c.Mode == ModeInt && c.Safety {
 		// unsigned 64-bit arithmetic is treated mathematically: absence of wrap-around is an obligation
 		if w, signed, ok := intInfo(t); ok && !signed && w == 64 {
@@ -770,6 +771,13 @@ func constInt(tv types.TypeAndValue) (int64, bool) {
 		return 0, false
 	}
 	return constant.Int64Val(tv.Value)
+}
+
+func (c *FCtx) drainSideFacts(st *State) {
+	for _, f := range c.sideFacts {
+		st.assume(f)
+	}
+	c.sideFacts = nil
 }
 
 var _ = fmt.Sprintf
